@@ -857,7 +857,23 @@ func cmdCheck(args []string) int {
 		}
 
 		for key, msgs := range unconfirmed {
-			if !confirmedLabel[key] {
+			if confirmedLabel[key] {
+				continue
+			}
+			// A schedule-dependent counterexample of a LISTED known finding (it was
+			// confirmed natively when it was recorded) that the Go scheduler did not
+			// reproduce in this run is still reported as that known finding, not as
+			// an engine error: the native schedule is random.
+			isKnownKey := false
+			for _, k := range kn {
+				if k.prop == prop && k.harness == hs.Func && key == "assert/"+k.label {
+					isKnownKey = true
+					line := fmt.Sprintf("KNOWN-FINDING: property=%s %s [harness=%s label=%s; %d candidate schedules were not reproduced by the native scheduler in this run]", prop, k.text, hs.Func, k.label, len(msgs))
+					fmt.Println(line)
+					knownHits = append(knownHits, line)
+				}
+			}
+			if !isKnownKey {
 				engineErrs = append(engineErrs, msgs[0]+fmt.Sprintf(" [%d candidates of this label tried, none reproduced]", len(msgs)))
 			}
 		}
